@@ -34,10 +34,22 @@ if rc != 0:
 
 
 def run_demo():
+    """the demos were written inside a scratch worktree (<root>/OUT/demo.py next to <root>/pyworkers); some of them insist on that layout.
+    Rebuild it outside /repo and /verif with pyworkers linked to the tree under test, run there, remove it."""
+    import glob, shutil, tempfile
+    root = tempfile.mkdtemp(prefix=f'seedrun_{sid}_')
+    os.makedirs(os.path.join(root, 'OUT'))
+    for f in glob.glob(os.path.join(os.path.dirname(demo), '*.py')):
+        shutil.copy(f, os.path.join(root, 'OUT'))
+    os.symlink('/repo/pyworkers', os.path.join(root, 'pyworkers'))
+    os.symlink('/repo/tests', os.path.join(root, 'tests'))
     res = []
-    for _ in range(2):
-        rc, o = sh(f'cd /tmp && PYTHONPATH=/repo timeout 300 /venv/bin/python {demo}', 400)
-        res.append(rc)
+    try:
+        for _ in range(2):
+            rc, o = sh(f'cd {root} && PYTHONPATH={root} timeout 300 /venv/bin/python {root}/OUT/demo.py', 400)
+            res.append(rc)
+    finally:
+        shutil.rmtree(root, ignore_errors=True)
     return res
 
 
